@@ -365,6 +365,12 @@ func (w *world) commit(op WOp) {
 		w.checkReopen(w.db.Get, &w.commits[len(w.commits)-1], "after-commit")
 	}
 	if w.has("C13") && w.cp != nil {
+		if !wroteSomething {
+			// a Commit with nothing to save (a flush helper called twice, a retry) is not a second batch of changes:
+			// the rollback window stays what it was
+			w.stats.Inc("probe.commit-with-nothing-to-save-under-a-checkpoint")
+			return
+		}
 		w.afterCP++
 		w.gcSinceB = 0
 		w.keysBeforeB = before
